@@ -344,6 +344,7 @@ type vRunOpts struct {
 	finish func(s *vSim, res *vRunResult)
 	setup  func(s *vSim)
 	noInstances map[string]bool
+	extraHook func(s *vSim) verifsim.MyHook
 }
 
 func vRun(t *testing.T, sc *vScenario, opt vRunOpts) *vRunResult {
@@ -405,6 +406,9 @@ func vRun(t *testing.T, sc *vScenario, opt vRunOpts) *vRunResult {
 			opt.setup(s)
 		}
 		hook := newHook(s, sc.Policy)
+		if opt.extraHook != nil {
+			hook.extra = opt.extraHook(s)
+		}
 		s.setHook(hook)
 		s.Z.Hook = hook
 		// processes: the designated manager first so that it takes the lock
